@@ -575,4 +575,81 @@ Proof.
   - intros i d Hd. rewrite Ref. apply F0. rewrite <- Hsplit. exact Hd.
 Qed.
 
+(** boundary (one-dart) edge e -> b1: e -> fh_1 -> ... -> fh_k -> b1, nothing else changes (the second half of the spare
+    darts is not used) *)
+Theorem insert_pure_boundary f e fh sh :
+  let b1 := f 1 e in
+  f 2 e = 0 -> fh <> [] -> NoDup (e :: b1 :: fh) -> b1 <> 0 ->
+  let f' := insert_pure f e fh sh in
+  chain f' e (fh ++ [b1]) /\ chain0 f' e fh /\ f' 0 b1 = last fh e /\
+  (forall i d, ~ In d (e :: b1 :: fh) -> f' i d = f i d).
+Proof.
+  intros b1 Z2 Hfh Hnd Nb1.
+  assert (D1 : e <> b1) by (inversion Hnd as [|? ? N0 _]; intros Q; apply N0; left; auto).
+  assert (Ne1 : ~ In e fh) by (inversion Hnd as [|? ? N0 _]; intros Q; apply N0; right; exact Q).
+  assert (Nb1f : ~ In b1 fh) by (inversion Hnd as [|? ? _ Hn1]; inversion Hn1; assumption).
+  assert (Nfh : NoDup fh) by (inversion Hnd as [|? ? _ Hn1]; inversion Hn1; assumption).
+  cbv zeta. unfold insert_pure. fold b1. rewrite Z2.
+  rewrite (proj2 (N.eqb_neq b1 0) Nb1). change (0 =? 0) with true. cbn [negb].
+  set (f1 := p_unlink1 f e).
+  assert (P1 : forall d, d <> e -> f1 1 d = f 1 d) by (intros d A; unfold f1, p_unlink1; consts; simpl_ne; reflexivity).
+  assert (Pall : forall i d, d <> e -> d <> b1 -> f1 i d = f i d).
+  { intros i d A B. unfold f1, p_unlink1. fold b1.
+    destruct ((i =? 0) && (d =? b1)) eqn:Q1; [apply andb_true_iff in Q1 as [_ Q]; apply N.eqb_eq in Q; contradiction|].
+    destruct ((i =? 1) && (d =? e)) eqn:Q2; [apply andb_true_iff in Q2 as [_ Q]; apply N.eqb_eq in Q; contradiction|]. reflexivity. }
+  assert (Hn1 : NoDup (e :: fh)) by (constructor; assumption).
+  destruct (first_pure_spec fh f1 e Hn1) as (L3 & C3 & C30 & G31 & G30 & G3i). cbv zeta in *.
+  destruct (first_pure f1 e fh) as [f3 prev] eqn:Ep. cbn [fst snd] in *.
+  assert (InP : In prev fh) by (rewrite L3; apply last_in; exact Hfh).
+  assert (Pe : prev <> e) by (intros Q; rewrite Q in InP; contradiction).
+  assert (Pb : prev <> b1) by (intros Q; rewrite Q in InP; contradiction).
+  assert (Pnr : ~ In prev (removelast (e :: fh))).
+  { intros Q. apply in_removelast_cons in Q; [|exact Hfh]. destruct Q as [Q|Q]; [congruence|].
+    rewrite L3 in Q. revert Q. apply last_not_in_removelast; assumption. }
+  set (f4 := p_link1 f3 prev b1).
+  destruct (p_link1_vals f3 prev b1 Pb) as (V41 & V40 & F41 & F40 & F4i). fold f4 in V41, V40, F41, F40, F4i.
+  split; [|split; [|split]].
+  - apply chain_app. split.
+    + apply (chain_ext' f3); [|exact C3]. intros d Hd. apply F41. intros ->.
+      apply Pnr. destruct fh as [|a l]; [congruence|]. exact Hd.
+    + rewrite <- L3. exact V41.
+  - (* backward chain: the 0-images of fh are not touched by the last link (it writes the 0-image of b1) *)
+    clear - C30 F40 Nb1f. revert C30. generalize e as p. induction fh as [|a l IH]; intros p C0; cbn [chain0] in *; [exact I|].
+    destruct C0 as [A B]. split.
+    + rewrite F40; [exact A|]. intros ->. apply Nb1f. left. reflexivity.
+    + apply IH; [|exact B]. intros Q. apply Nb1f. right. exact Q.
+  - rewrite <- L3. exact V40.
+  - intros i d Hd.
+    assert (A : d <> e /\ d <> b1 /\ ~ In d fh) by (cbn [In] in Hd; repeat split; intros Q; apply Hd; try (rewrite Q); tauto).
+    destruct A as (A1 & A2 & A3).
+    assert (Ap : d <> prev) by (intros ->; contradiction).
+    assert (E4 : f4 i d = f3 i d).
+    { destruct (N.eqb_spec i 0) as [->|I0]; [apply F40; assumption|].
+      destruct (N.eqb_spec i 1) as [->|I1]; [apply F41; assumption|]. apply F4i; assumption. }
+    assert (E3 : f3 i d = f1 i d).
+    { destruct (N.eqb_spec i 0) as [->|I0]; [apply G30; assumption|].
+      destruct (N.eqb_spec i 1) as [->|I1]; [|apply G3i; assumption].
+      apply G31. intros Q. apply removelast_in in Q. destruct Q as [Q|Q]; [congruence|contradiction]. }
+    rewrite E4, E3. apply Pall; assumption.
+Qed.
+
+Theorem insert_vertices_boundary E n ks e nds ts c w cnt w' cnt' :
+  let b1 := beta w 1 e in let fh := firstn (length ts) nds in
+  beta w 2 e = 0 -> ts <> [] -> length nds = (2 * length ts)%nat ->
+  NoDup (e :: b1 :: fh) -> b1 <> 0 ->
+  run E (insert_vertices_on_edge n ks e nds ts) c w cnt = (Done tt, w', cnt') ->
+  chain (beta w') e (fh ++ [b1]) /\ beta w' 0 b1 = last fh e /\
+  (forall i d, ~ In d (e :: b1 :: fh) -> beta w' i d = beta w i d).
+Proof.
+  intros b1 fh Z2 Hts Hlen Hnd Nb Hr.
+  pose proof (insert_vertices_refines E n ks e nds ts c w cnt w' cnt' Hr) as Ref. fold fh in Ref.
+  assert (Lf : length fh = length ts) by (unfold fh; apply firstn_length_le; lia).
+  assert (Hfh : fh <> []) by (intros Q; rewrite Q in Lf; destruct ts; [congruence|discriminate Lf]).
+  destruct (insert_pure_boundary (beta w) e fh (skipn (length ts) nds) Z2 Hfh Hnd Nb) as (A & _ & B & F0). cbv zeta in *. fold b1 in A, B, F0.
+  split; [|split].
+  - eapply chain_img_eq; [exact Ref|exact A].
+  - rewrite Ref. exact B.
+  - intros i d Hd. rewrite Ref. apply F0. exact Hd.
+Qed.
+
 End InsertMany.
